@@ -2,9 +2,11 @@ package fontscan
 
 import (
 	"fmt"
+	"math"
 	"os"
 	"path/filepath"
 	"strings"
+	"unicode/utf8"
 
 	"github.com/go-text/typesetting/font"
 	ot "github.com/go-text/typesetting/font/opentype"
@@ -50,10 +52,23 @@ type Footprint struct {
 	isUserProvided bool
 }
 
+// truncateFamily cuts a family name to the length the index can store (see serializeString),
+// at a rune boundary, so that a footprint is not changed by writing it to the index.
+func truncateFamily(family string) string {
+	if len(family) <= math.MaxUint16 {
+		return family
+	}
+	L := math.MaxUint16
+	for L > 0 && !utf8.RuneStart(family[L]) {
+		L--
+	}
+	return family[:L]
+}
+
 func newFootprintFromFont(f *font.Font, location Location, md font.Description) (out Footprint) {
 	out.Runes, out.Scripts, _ = newCoveragesFromCmap(f.Cmap, nil)
 	out.Langs = newLangsetFromCoverage(out.Runes)
-	out.Family = font.NormalizeFamily(md.Family)
+	out.Family = truncateFamily(font.NormalizeFamily(md.Family))
 	out.Aspect = md.Aspect
 	out.Aspect.SetDefaults() // the matching steps expect a complete aspect
 	out.Location = location
@@ -92,7 +107,7 @@ func newFootprintFromLoader(ld *ot.Loader, isUserProvided bool, buffer scanBuffe
 	out.Langs = newLangsetFromCoverage(out.Runes)
 
 	desc, raw := font.Describe(ld, raw)
-	out.Family = font.NormalizeFamily(desc.Family)
+	out.Family = truncateFamily(font.NormalizeFamily(desc.Family))
 	out.Aspect = desc.Aspect
 	out.isUserProvided = isUserProvided
 
